@@ -222,6 +222,17 @@ def run_case(case):
                       "detail": f"{ctx}: exit status {rc}: {tail}"})
             return {"violations": v, "obs": obs}
         obs["conversions"] = 1
+        # offline audit of the command's own event log: every destination chunk must have
+        # reached the storage layer in this very process
+        recs = cli.read_records(report)
+        if recs:
+            wrote = {(k, tuple(c)) for k, c in recs[-1].get("written", [])}
+            obs["event_log_audits"] = obs.get("event_log_audits", 0) + 1
+            lost = sorted(set(sdata) - wrote)
+            if lost:
+                v.append({"kind": "successful-command-did-not-write-all-its-chunks",
+                          "detail": f"{ctx}: exit status 0 but {len(lost)} of {len(sdata)} "
+                          f"chunks never reached store_chunk, e.g. {lost[0]}"})
         if shardlib.tree_digest(src)[0] != before:
             v.append({"kind": "source-modified", "detail": ctx})
         try:
@@ -284,4 +295,5 @@ def gates(obs, tier):
         "monitors_active_inside_the_command_processes": obs.get("child_processes", 0) > 50
         and obs.get("child_write_chunk_events", 0) > 1000
         and obs.get("child_contract_evaluations", {}).get("compressed_morton_code", 0) > 100,
+        "event_logs_audited": obs.get("event_log_audits", 0) > 50,
     }
